@@ -9,9 +9,12 @@ Property theorems about M-Pen (`DefconModel/Pen.lean`, the executable model of d
 Coordinates range over an arbitrary type `R`; theorems that need arithmetic hold over every
 commutative ring (so over ℤ and ℚ); the examples are evaluated over `Int`.
 
-NOT a theorem here: INDEPENDENCE of a copy ("shares no mutable state").  Lean values are immutable,
-so the statement has no content for the model; it is checked on the implementation only
-(harness/props/c13.py, `oracle_independence`) and labelled correspondence-only in the evidence.
+INDEPENDENCE of a copy ("shares no mutable state") is a statement about identities, which the immutable
+records of M-Pen cannot express; it is stated and proved in section 7 about M-Cells (`DefconModel/Cells.lean`:
+Python values as trees of cells with identities; `deepcopy` / rebuild / alias per field of the glyph), tied
+to the code by the harness's walk over `id()`s of both object graphs after every copy and by the table of
+syntactic forms regenerated from the AST (`Gen/CopyForms.lean`).  Section 3b states what `copyDataFromGlyph`
+does to a destination that is NOT fresh (what is replaced, what is kept; findings F120 / F121).
 
 The model is that of the code with the defcon fixes "decomposing a component of a glyph whose contours
 are still shallow loaded …" (repo_fixes/C13-decompose-shallow.diff, found by this check) and "lazily
@@ -20,6 +23,9 @@ registers the identifiers it stores, `deepen` hands them over.  The Lean witness
 (`unfixed_decompose_shallow_violated`) was stated about the pre-C10-6 loading pen and was removed with it.
 -/
 import DefconModel.Lemmas.Pen
+import DefconModel.Lemmas.PenCopyInto
+import DefconModel.Lemmas.Cells
+import DefconModel.Gen.CopyForms
 
 namespace DefconModel.Props.C13
 open DefconModel DefconModel.Pen
@@ -319,6 +325,115 @@ theorem copy_copy (n m : Option String) (src d : Glyph R) (h : src.Valid)
 
 end Fresh
 
+/-! ## 3b. Copies into a glyph that already holds data: what is replaced, what is kept -/
+
+/-- `copyDataFromGlyph` into ANY destination that holds contour objects (a glyph that is not fresh: its
+own contours, components, anchors, guidelines, lib, image, unicodes), when the copy is accepted (the
+three registrations meet no identifier in use: `copy_into_accepts_of_disjoint` below): width, height,
+unicodes, note, image, anchors, guidelines and lib are REPLACED by the source's; the destination's
+contours and components are KEPT and the source's outline is appended after them; the name stays; the
+registry is what the replaced guidelines / anchors leave plus the outline's identifiers. -/
+theorem copy_into_replaces_and_keeps (dst src : Glyph R) (hs : dst.shallow = none)
+    (h1 : (dst.ids ++ present (src.guidelines.map (·.ident))).Nodup)
+    (h2 : (releaseAll (dst.ids ++ present (src.guidelines.map (·.ident))) (oldGuideIds dst) ++
+      present (src.anchors.map (·.ident))).Nodup)
+    (h3 : (idsAfterSwap dst src ++ identsOf src.outline src.components).Nodup) :
+    ∃ d, copyData dst src = .ok d ∧
+      d.width = src.width ∧ d.height = src.height ∧ d.unicodes = src.unicodes ∧ d.note = src.note ∧
+      d.image = src.image ∧ d.anchors = src.anchors ∧ d.guidelines = src.guidelines ∧ d.lib = src.lib ∧
+      d.contours = dst.contours ++ src.outline ∧ d.components = dst.components ++ src.components ∧
+      d.name = dst.name ∧ d.ids = idsAfterSwap dst src ++ identsOf src.outline src.components :=
+  ⟨_, copy_into dst src hs h1 h2 h3, rfl, rfl, rfl, rfl, rfl, rfl, rfl, rfl, rfl, rfl, rfl, rfl⟩
+
+/-- The copy is accepted whenever no identifier of the source is registered in the destination. -/
+theorem copy_into_accepted_of_disjoint (dst src : Glyph R) (hs : dst.shallow = none)
+    (hd : (dst.ids ++ src.allIdents).Nodup) : ∃ d, copyData dst src = .ok d := by
+  obtain ⟨h1, h2, h3⟩ := copy_into_accepts_of_disjoint dst src hd
+  exact ⟨_, copy_into dst src hs h1 h2 h3⟩
+
+/-- FULL statement of the property's sentence "copying a glyph's data into another glyph yields an equal
+glyph", for ANY destination. -/
+def CopyIntoEqual (R : Type) : Prop :=
+  ∀ (dst src d : Glyph R), copyData dst src = .ok d → d.obs = src.obs
+
+/-- FULL statement: a valid source is accepted by any destination whose registry is duplicate-free. -/
+def CopyIntoAccepted (R : Type) : Prop :=
+  ∀ (dst src : Glyph R), src.Valid → dst.ids.Nodup → ∃ d, copyData dst src = .ok d
+
+/-- The proved part (finding F120): into a destination WITHOUT outline of its own (no contours, no
+components; anchors, guidelines, lib, image, unicodes, note, metrics of its own are all replaced) that
+shares no identifier with the source, the copy exists and equals the source in every observable datum. -/
+theorem copy_into_equal_partial (dst src : Glyph R) (hs : dst.shallow = none)
+    (he : dst.contours = [] ∧ dst.components = []) (hd : (dst.ids ++ src.allIdents).Nodup) :
+    ∃ d, copyData dst src = .ok d ∧ d.obs = src.obs ∧ d.name = dst.name := by
+  obtain ⟨h1, h2, h3⟩ := copy_into_accepts_of_disjoint dst src hd
+  refine ⟨_, copy_into dst src hs h1 h2 h3, ?_, rfl⟩
+  simp only [Glyph.obs]
+  rw [draw_eq_outline src]
+  simp [Glyph.draw, hs, he.1, he.2]
+
+
+section Witness
+open DefconModel.Pen
+
+/-- a destination that already holds a contour and a component, an anchor `a1`, a lib, a unicode -/
+def exDst : Glyph Int :=
+  { (Glyph.fresh (some "dst")) with
+      width := 100, unicodes := [66], anchors := [⟨some 9, some 9, some "old", none, some "a1"⟩],
+      guidelines := [⟨some 1, none, none, none, none, some "g9"⟩], lib := "{\"old\":1}",
+      contours := [⟨some "c9", [⟨7, 7, some .line, false, none, none⟩]⟩],
+      components := [⟨"B", ⟨1, 0, 0, 1, 0, 0⟩, none⟩], ids := ["a1", "g9", "c9"] }
+
+/-- a source without identifiers in common with `exDst` -/
+def exSrc : Glyph Int :=
+  { (Glyph.fresh (some "src")) with
+      width := 500, unicodes := [65], anchors := [⟨some 1, some 2, some "top", none, some "a2"⟩],
+      lib := "{\"k\":[1]}", contours := [⟨none, [⟨0, 0, some .line, false, none, some "p1"⟩]⟩],
+      components := [⟨"A", ⟨2, 0, 0, 2, 0, 0⟩, some "k1"⟩], ids := ["a2", "p1", "k1"] }
+
+/-- a source whose anchor carries the identifier the destination's anchor — which the copy is about to
+replace — carries -/
+def exSrcClash : Glyph Int := { exSrc with anchors := [⟨some 1, some 2, some "top", none, some "a1"⟩], ids := ["a1", "p1", "k1"] }
+
+end Witness
+
+/-- Finding F120 (recorded, not repaired: "Glyph Absorption" appends by design of long standing): copied
+into a glyph that has an outline of its own, the result holds the destination's old contours and
+components in front of the source's — it does not equal the source. -/
+theorem copy_into_equal_violated : ¬ CopyIntoEqual Int := by
+  intro h
+  have := h exDst exSrc _ (copy_into exDst exSrc rfl (by decide) (by decide) (by decide))
+  revert this
+  decide
+
+/-- Finding F121 (recorded): the new guidelines / anchors are registered BEFORE the old ones are released,
+and the outline is appended to the old one, so a valid source that has an identifier in common with the
+destination is rejected (`AssertionError`) — also when that identifier belongs to an anchor the copy was
+about to replace (copying the same source into the same glyph twice is the common case). -/
+theorem copy_into_accepted_violated : ¬ CopyIntoAccepted Int := by
+  intro h
+  obtain ⟨d, hd⟩ := h exDst exSrcClash (by decide) (by decide)
+  revert hd
+  have : copyData exDst exSrcClash = .error .assertion := by decide
+  rw [this]
+  intro hd
+  cases hd
+
+example : exSrc.Valid ∧ exSrcClash.Valid ∧ exDst.ids.Nodup ∧ exDst.shallow = none := by decide
+example : (exDst.ids ++ exSrc.allIdents).Nodup := by decide
+/-- what is replaced, what is kept, on the witness: the old contour `c9` and component `B` stay in front -/
+example :
+    (copyData exDst exSrc).toOption.map (fun d => (d.width, d.unicodes)) = some ((500 : Int), [65]) ∧
+    (copyData exDst exSrc).toOption.map (fun d => (d.anchors.map (·.name), d.guidelines.length)) = some ([some "top"], 0) ∧
+    (copyData exDst exSrc).toOption.map (fun d => d.lib) = some "{\"k\":[1]}" ∧
+    (copyData exDst exSrc).toOption.map (fun d => (d.contours.map (·.ident), d.components.map (·.base))) =
+      some ([some "c9", none], ["B", "A"]) ∧
+    (copyData exDst exSrc).toOption.map (fun d => (d.ids, d.name)) = some (["c9", "a2", "p1", "k1"], some "dst") := by
+  decide
+/-- the partial theorem's hypotheses on a destination with anchors / guidelines / lib of its own but no outline -/
+example : ({ exDst with contours := [], components := [], ids := ["a1", "g9"] } : Glyph Int).shallow = none ∧
+    (["a1", "g9"] ++ exSrc.allIdents).Nodup := by decide
+
 /-! ## 4. Decomposition -/
 
 /-- With the skip flag nothing is ever rejected, and the registry stays duplicate-free. -/
@@ -605,5 +720,181 @@ example : (build false [.beginPath (some "c1"), .endPath] exDShallow) = .error .
       some [some "c1", none] := by decide
 
 end Examples
+
+/-! ## 7. Independence: a copy shares no mutable state with its source (M-Cells)
+
+The records of M-Pen are immutable Lean values; sharing is a statement about the heap model of
+`DefconModel/Cells.lean`: Python values as trees of cells with identities, `Reach h v q` = the cell at
+address `q` belongs to the mutable state of `v`, `Disjoint h v w` = no cell belongs to both. -/
+
+section Independence
+open DefconModel.Cells
+
+/-- `copy.deepcopy` (what `copyDataFromGlyph` applies to the lib): for a well-formed heap and ANY value —
+any nesting of lists / dicts / sets / objects — the cells reachable from the copy are disjoint from the
+cells reachable from the source, the copy denotes the value the source denoted, and the source still
+denotes what it denoted. -/
+theorem deepcopy_disjoint (n : Nat) (h h' : Heap) (v v' : Val) (hc : Closed h) (hv : InB h v)
+    (e : deepcopy n h v = some (h', v')) :
+    Disjoint h' v' v ∧ (∀ k, denote h' k v' = denote h k v) ∧ (∀ k, denote h' k v = denote h k v) := by
+  obtain ⟨h1, h2, h3, _, _⟩ := copy_disjoint hc hv e (aliasFree_allDeep n [] h v)
+  exact ⟨h1, h2, h3⟩
+
+/-- ANY sequence of mutations — cells overwritten in place, new cells allocated, in any number and order —
+that writes to no cell of the state of `v` leaves what `v` denotes, and the set of cells it reaches,
+unchanged. -/
+theorem mutation_invisible (h : Heap) (v : Val) (ms : List Mut) (hb : Bounded h v)
+    (hw : ∀ p c, Mut.write p c ∈ ms → ¬ Reach h v p) :
+    (∀ k, denote (applyAll h ms) k v = denote h k v) ∧ (∀ q, Reach (applyAll h ms) v q ↔ Reach h v q) :=
+  muts_invisible ms h v hb hw
+
+/-- By disjointness: whatever is done to the cells of one side (here `v`) — and to cells allocated later —
+is invisible from the other side (`w`). -/
+theorem mutation_of_other_side_invisible (h : Heap) (v w : Val) (ms : List Mut) (hb : Bounded h w)
+    (hd : Disjoint h v w) (hw : ∀ p c, Mut.write p c ∈ ms → Reach h v p ∨ h.length ≤ p) :
+    ∀ k, denote (applyAll h ms) k w = denote h k w := by
+  refine (muts_invisible ms h w hb ?_).1
+  intro p c hm r
+  rcases hw p c hm with h1 | h1
+  · exact hd p h1 r
+  · exact absurd (hb p r) (Nat.not_lt.mpr h1)
+
+/-- FULL statement of the independence clause for a copy route given by its field table: every glyph of
+the shape the table's types describe, copied field by field as the table's modes say, shares no cell
+with its copy. -/
+def Independent (t : Table) : Prop :=
+  ∀ (n : Nat) (h h' : Heap) (g g' : Val), Closed h → InB h g → conforms n t.ty [] h g = true →
+    copyAt n t.mode [] h g = some (h', g') → Disjoint h' g' g
+
+/-- Every table whose entries are all safe — `alias` only on fields that always hold immutable values,
+`deepcopy` on fields of unknown structure, a fresh container otherwise — yields independent copies that
+denote what the source denotes; later mutations of either side are invisible from the other. -/
+theorem safe_table_independent (t : Table) (hs : t.safe = true) (n : Nat) (h h' : Heap) (g g' : Val)
+    (hc : Closed h) (hg : InB h g) (hshape : conforms n t.ty [] h g = true)
+    (e : copyAt n t.mode [] h g = some (h', g')) :
+    Disjoint h' g' g ∧ (∀ k, denote h' k g' = denote h k g) ∧ (∀ k, denote h' k g = denote h k g) ∧
+    (∀ ms : List Mut, (∀ p c, Mut.write p c ∈ ms → Reach h' g p ∨ h'.length ≤ p) →
+      ∀ k, denote (applyAll h' ms) k g' = denote h k g) ∧
+    (∀ ms : List Mut, (∀ p c, Mut.write p c ∈ ms → Reach h' g' p ∨ h'.length ≤ p) →
+      ∀ k, denote (applyAll h' ms) k g = denote h k g) := by
+  have ha : aliasFree n t.mode [] h g = true :=
+    conforms_aliasFree t.ty t.mode (fun path => Table.safe_at t hs path) h n [] g hshape
+  obtain ⟨h1, h2, h3, h4, h5⟩ := copy_disjoint hc hg e ha
+  refine ⟨h1, h2, h3, ?_, ?_⟩
+  · intro ms hw k
+    rw [mutation_of_other_side_invisible h' g g' ms h5 (fun q r1 r2 => h1 q r2 r1) hw k, h2 k]
+  · intro ms hw k
+    rw [mutation_of_other_side_invisible h' g' g ms h4 h1 hw k, h3 k]
+
+/-- The code's copy paths (`Glyph.copyDataFromGlyph`, hence `Layer.insertGlyph` and `Font.insertGlyph`):
+by the table of what each statement does to each field (`Cells.codeTable`; tied to the source by the two
+obligations below), every mutable field of the copy — the glyph object, its unicodes list, lib and every
+nested lib value, image, anchors, guidelines, contours, their point lists and points, components,
+identifier set — is disjoint from the source. -/
+theorem copy_independent : Independent codeTable := by
+  intro n h h' g g' hc hg hshape e
+  exact (safe_table_independent codeTable (by decide) n h h' g g' hc hg hshape e).1
+
+/-- An `alias` entry on a field that holds a cell refutes independence: the "copy" of that field IS the
+source's cell. -/
+theorem alias_entry_shares (n : Nat) (tbl : Path → Mode) (path : Path) (h : Heap) (p : Addr)
+    (ha : tbl path = .alias) :
+    copyAt (n + 1) tbl path h (.ref p) = some (h, .ref p) ∧ ¬ Disjoint h (.ref p) (.ref p) := by
+  refine ⟨by simp [copyAt, ha], fun hd => hd p (Reach.here p) (Reach.here p)⟩
+
+/-! ### witnesses: tables with an `alias` entry on a mutable field -/
+
+/-- a glyph with one component whose transformation is a LIST (cell 0), as
+`component.transformation = [1, 0, 0, 1, 0, 0]` stored it before the repair -/
+def exHeapT : Heap :=
+  [⟨.list, [], [.atom (.sc (.int 1)), .atom (.sc (.int 0)), .atom (.sc (.int 0)), .atom (.sc (.int 1)),
+                .atom (.sc (.int 0)), .atom (.sc (.int 0))]⟩,
+   ⟨.obj "Component", ["baseGlyph", "transformation", "identifier"], [.atom (.sc (.str "A")), .ref 0, .atom (.sc .none)]⟩,
+   ⟨.list, [], [.ref 1]⟩,
+   ⟨.obj "Glyph", ["width", "components"], [.atom (.sc (.int 500)), .ref 2]⟩]
+
+/-- a glyph whose lib holds a nested list: `{"k": [1, {"a": [2]}]}` -/
+def exHeapL : Heap :=
+  [⟨.list, [], [.atom (.sc (.int 2))]⟩, ⟨.dict, ["a"], [.ref 0]⟩,
+   ⟨.list, [], [.atom (.sc (.int 1)), .ref 1]⟩, ⟨.dict, ["k"], [.ref 2]⟩,
+   ⟨.obj "Glyph", ["width", "lib"], [.atom (.sc (.int 500)), .ref 3]⟩]
+
+/-- `exHeapT` after its glyph (cell 3) was copied by the unrepaired table: new component 4, list 5, glyph 6 -/
+def exCopyT : Heap :=
+  exHeapT ++ [⟨.obj "Component", ["baseGlyph", "transformation", "identifier"],
+                [.atom (.sc (.str "A")), .ref 0, .atom (.sc .none)]⟩,
+              ⟨.list, [], [.ref 4]⟩,
+              ⟨.obj "Glyph", ["width", "components"], [.atom (.sc (.int 500)), .ref 5]⟩]
+
+/-- Finding F119 (repaired: `Component._set_transformation` now stores a tuple): with the table of the
+tree as it was — the transformation field may hold a list, and the pen assigns it — the copy of a glyph
+whose component carries a list shares that list with the source. -/
+theorem unrepaired_table_violated : ¬ Independent unrepairedTable := by
+  intro hI
+  have e : copyAt 8 unrepairedTable.mode [] exHeapT (.ref 3) = some (exCopyT, .ref 6) := by decide
+  exact hI 8 exHeapT _ (.ref 3) (.ref 6) (closed_of_closedB (by decide)) (by decide) (by decide) e 0
+    (reach_of_reachB 8 _ _ (by decide)) (reach_of_reachB 8 _ _ (by decide))
+
+/-- The serialization route without pickling (`dst.setDataFromSerialization(src.getDataForSerialization())`,
+not a copy path of this property) is such a table too: the lib's values are handed over as they are. -/
+theorem serial_table_violated : ¬ Independent serialTable := by
+  intro hI
+  have e : copyAt 8 serialTable.mode [] exHeapL (.ref 4) =
+      some (exHeapL ++ [⟨.dict, ["k"], [.ref 2]⟩,
+                        ⟨.obj "Glyph", ["width", "lib"], [.atom (.sc (.int 500)), .ref 5]⟩], .ref 6) := by
+    decide
+  exact hI 8 exHeapL _ (.ref 4) (.ref 6) (closed_of_closedB (by decide)) (by decide) (by decide) e 2
+    (reach_of_reachB 8 _ _ (by decide)) (reach_of_reachB 8 _ _ (by decide))
+
+/-! ### the tie to the source (obligations over the regenerated table) -/
+
+/-- Every statement of the code's copy paths whose treatment of a field is syntactically decidable
+(`deepcopy(…)`, `list(…)`, comprehension over `instantiateX`, own pen, bare assignment, `tuple(…)` in the
+transformation setter, …; regenerated from the AST on every run) has the form the model assumes. -/
+theorem copy_forms_as_modelled : Gen.CopyForms.forms = expectedForms := by decide
+
+/-- … and the entries of the field table that those forms determine are entries of `codeTable`. -/
+theorem code_table_from_forms :
+    (derivedEntries Gen.CopyForms.forms).all (fun e => codeTable.contains e) = true := by decide
+
+/-! ### non-vacuity -/
+
+example : closedB exHeapL = true ∧ closedB exHeapT = true := by decide
+example : codeTable.safe = true ∧ unrepairedTable.safe = false ∧ serialTable.safe = false := by decide
+/-- the lib of `exHeapL` deep-copied: four new cells (5 … 8), the root of the copy is cell 8 -/
+example : (deepcopy 8 exHeapL (.ref 3)).map (fun r => (r.1.length, r.2)) = some (9, .ref 8) := by decide
+example : ((deepcopy 8 exHeapL (.ref 3)).bind fun r => denote r.1 8 r.2) = denote exHeapL 8 (.ref 3) := rfl
+/-- the glyph of `exHeapL` conforms to the code's table and is copied by it: 5 fresh cells, nothing shared -/
+example : conforms 8 codeTable.ty [] exHeapL (.ref 4) = true ∧
+    (copyAt 8 codeTable.mode [] exHeapL (.ref 4)).map (fun r => (r.1.length, r.2, sharedPaths 5 r.1 8 [] r.2)) =
+      some (10, .ref 9, []) := by decide
+/-- … while the serialization table shares the lib value, and the unrepaired table the transformation -/
+example : (copyAt 8 serialTable.mode [] exHeapL (.ref 4)).map (fun r => sharedPaths 5 r.1 8 [] r.2) = some ["lib.*"] ∧
+    (copyAt 8 unrepairedTable.mode [] exHeapT (.ref 3)).map (fun r => sharedPaths 4 r.1 8 [] r.2) =
+      some ["components.*.transformation"] ∧
+    conforms 8 codeTable.ty [] exHeapT (.ref 3) = false := by decide
+/-- a mutation of the SOURCE's nested lib list (cell 0: `[2]` becomes `[2, 3]`) after a deep copy: the copy
+(cell 8) still denotes the old value — an instance of `mutation_of_other_side_invisible` -/
+example : ∀ k, denote (applyAll (exHeapL ++ [⟨.list, [], [.atom (.sc (.int 2))]⟩, ⟨.dict, ["a"], [.ref 5]⟩,
+      ⟨.list, [], [.atom (.sc (.int 1)), .ref 6]⟩, ⟨.dict, ["k"], [.ref 7]⟩])
+      [.write 0 ⟨.list, [], [.atom (.sc (.int 2)), .atom (.sc (.int 3))]⟩]) k (.ref 8) = denote exHeapL k (.ref 3) := by
+  have e : deepcopy 8 exHeapL (.ref 3) = some (exHeapL ++ [⟨.list, [], [.atom (.sc (.int 2))]⟩, ⟨.dict, ["a"], [.ref 5]⟩,
+      ⟨.list, [], [.atom (.sc (.int 1)), .ref 6]⟩, ⟨.dict, ["k"], [.ref 7]⟩], .ref 8) := by decide
+  obtain ⟨h1, h2, _⟩ := deepcopy_disjoint 8 exHeapL _ (.ref 3) (.ref 8) (closed_of_closedB (by decide)) (by decide) e
+  intro k
+  rw [← h2 k]
+  refine mutation_of_other_side_invisible _ (.ref 3) (.ref 8) _ ?_ (fun q r1 r2 => h1 q r2 r1) ?_ k
+  · exact bounded_of_closed (closed_of_closedB (by decide)) (by decide)
+  · intro p c hm
+    simp only [List.mem_singleton, Mut.write.injEq] at hm
+    exact Or.inl (hm.1 ▸ reach_of_reachB 8 _ _ (by decide))
+/-- the same write where the list is SHARED (unrepaired table): the copy's denotation changes -/
+example : denote exCopyT 8 (.ref 6) = denote exHeapT 8 (.ref 3) ∧
+    denote (exCopyT.set 0 ⟨.list, [], []⟩) 8 (.ref 6) =
+      some (.node (.obj "Glyph") ["width", "components"] [.atom (.sc (.int 500)),
+        .node .list [] [.node (.obj "Component") ["baseGlyph", "transformation", "identifier"]
+          [.atom (.sc (.str "A")), .node .list [] [], .atom (.sc .none)]]]) := ⟨rfl, rfl⟩
+
+end Independence
 
 end DefconModel.Props.C13
